@@ -98,6 +98,22 @@ func checkHashers(r *rt.Run, where string, algs []string, hs []*hashio.Hasher, s
 		if got, want := h.Sum(nil), trueDigest(algs[i], sofar); !bytes.Equal(got, want) {
 			r.Violate("C12/digest-mismatch", where+"/"+algs[i], "%s digest after %d bytes is %x want %x", algs[i], len(sofar), got, want)
 		}
+		// Sum appends to the caller's slice and leaves the prefix alone (hash.Hash contract)
+		pre := []byte{0xde, 0xad, byte(len(sofar))}
+		if got, want := h.Sum(append([]byte(nil), pre...)), append(append([]byte(nil), pre...), trueDigest(algs[i], sofar)...); !bytes.Equal(got, want) {
+			r.Violate("C12/digest-mismatch", where+"/"+algs[i]+"/sum-appends", "Sum(prefix) after %d bytes is %x want %x", len(sofar), got, want)
+		}
+		// the algorithm table itself: a fresh hash by that name digests the same bytes to the same value
+		if len(sofar) <= 600 {
+			if fh, err := hashio.GetHash(algs[i]); err != nil {
+				r.Violate("C12/constructor-error", where+"/GetHash", "%v", err)
+			} else {
+				fh.Write(sofar)
+				if got, want := fh.Sum(nil), trueDigest(algs[i], sofar); !bytes.Equal(got, want) {
+					r.Violate("C12/digest-mismatch", where+"/"+algs[i]+"/GetHash", "GetHash(%q) digests %d bytes to %x want %x", algs[i], len(sofar), got, want)
+				}
+			}
+		}
 	}
 }
 
